@@ -60,11 +60,17 @@ let ids_of_mask m =
   List.filter_map (fun i -> if Z.testbit m i then Some (n_of_z (Z.of_int i)) else None)
     [0;1;2;3;4;5;6;7;8;9;10;11;12;13;14;15]
 
+(* "<num>:<size>" passed to RequestChunks: 7+par and 11+par*2^33 (see c18ChunkNum/c18ChunkSize) *)
+let chunk_params = ref "7:11"
+let set_chunk_params par =
+  let p = z_of_n par in
+  chunk_params := Z.to_string (Z.add (Z.of_int 7) p) ^ ":" ^ Z.to_string (Z.add (Z.of_int 11) (Z.shift_left p 33))
+
 let tok_of_pev = function
   | PDone b -> "D" ^ tok_of_bool b
   | PIsProc (id, b) -> "I" ^ tok_of_n id ^ ":" ^ tok_of_bool b
   | PSusp b -> "U" ^ tok_of_bool b
-  | PReq k -> "R" ^ tok_of_n k ^ ":7:11"
+  | PReq k -> "R" ^ tok_of_n k ^ ":" ^ !chunk_params
   | PTerminated -> "X"
 
 let pev_of tok =
@@ -222,6 +228,7 @@ let eval inp obs =
       model_spec_ok = base_spec_ok (brun b_init ops); nontrivial = started }
   | "P" :: par :: nruns :: rest ->
     let par = n_of_tok par in
+    set_chunk_params par;
     let rec script k l = if k = 0 then [] else match l with
       | d :: s :: m :: r -> ((bool_of_tok d, bool_of_tok s), ids_of_mask m) :: script (k - 1) r
       | _ -> failwith "short script" in
@@ -245,6 +252,7 @@ let eval inp obs =
   | "T" :: par :: nruns :: rest ->
     (* trace validation of the real ticker: chunk identities are encoded as op*16+id *)
     let par = n_of_tok par in
+    set_chunk_params par;
     let nops = List.length ops in
     let rec script k l = if k = 0 then [] else match l with
       | d :: s :: m :: r ->
